@@ -15,6 +15,7 @@ import (
 	"sort"
 	"strings"
 	"sync"
+	"sync/atomic"
 	"testing"
 	"testing/synctest"
 	"time"
@@ -459,6 +460,8 @@ func Exec(t *testing.T, c *Check, seed uint64, tier string, sc *Scenario) *Resul
 		r.tape = NewTape(seed)
 	}
 	r.traceSched = os.Getenv("VERIF_TRACE_SCHED") != ""
+	curRun.Store(r)
+	defer curRun.CompareAndSwap(r, nil)
 
 	hooks := &simhook.Hooks{
 		Probe: func(name string) { r.Probe(name) },
@@ -590,6 +593,9 @@ func Exec(t *testing.T, c *Check, seed uint64, tier string, sc *Scenario) *Resul
 	collect()
 	return res
 }
+
+// curRun is the run being executed (read by the watchdog).
+var curRun atomic.Pointer[Run]
 
 // StuckHandler is called (inside the bubble) when a run got stuck; it must
 // not return control to the simulation (the process exits afterwards).
